@@ -623,3 +623,355 @@ def crossed_handoffs(rep: Report, ctx: Ctx, rule: str,
                    f"'{bad[0][3]}' and '{bad[0][3]}' as '{bad[0][4]}' of "
                    f"{bad[0][2].short}" if bad else
                    f"{n_sites} resolved call sites, none crossed"))
+
+
+def _init_of(ci) -> Optional[ast.FunctionDef]:  # type: ignore[no-untyped-def]
+    for st in ci.node.body:
+        if isinstance(st, ast.FunctionDef) and st.name == "__init__":
+            return st
+    return None
+
+
+def _self_stores(fn: ast.FunctionDef, definite: bool) -> set[str]:
+    """Attributes ``self.x = ..`` assigned in ``fn`` (``definite``: at the
+    top level of the body or in BOTH arms of a top-level if)."""
+    def of(stmts: list[ast.stmt]) -> set[str]:
+        out: set[str] = set()
+        for st in stmts:
+            tg: list[ast.AST] = []
+            if isinstance(st, ast.Assign):
+                tg = list(st.targets)
+            elif isinstance(st, (ast.AnnAssign, ast.AugAssign)):
+                tg = [st.target]
+            for t in tg:
+                for x in (t.elts if isinstance(t, ast.Tuple) else [t]):
+                    if isinstance(x, ast.Attribute) and isinstance(
+                            x.value, ast.Name) and x.value.id == "self":
+                        out.add(x.attr)
+            if isinstance(st, ast.If):
+                a, b = of(st.body), of(st.orelse)
+                out |= (a & b) if definite else (a | b)
+            elif not definite and isinstance(st, (ast.For, ast.While,
+                                                  ast.With, ast.Try)):
+                for fld in ("body", "orelse", "finalbody"):
+                    out |= of(getattr(st, fld, []) or [])
+        return out
+    return of(fn.body)
+
+
+def _calls_super_init(fn: ast.FunctionDef) -> bool:
+    for st in fn.body:
+        if isinstance(st, ast.Expr) and isinstance(st.value, ast.Call):
+            f = st.value.func
+            if isinstance(f, ast.Attribute) and f.attr == "__init__" and \
+                    isinstance(f.value, ast.Call) and isinstance(
+                        f.value.func, ast.Name) and f.value.func.id == "super":
+                return True
+    return False
+
+
+def _norm_isnone(fn: ast.FunctionDef) -> ast.FunctionDef:
+    """Copy of ``fn`` with ``not (a is None)`` -> ``a is not None``."""
+    import copy
+    fn = copy.deepcopy(fn)
+    for node in ast.walk(fn):
+        if isinstance(node, ast.If) and isinstance(node.test, ast.UnaryOp) \
+                and isinstance(node.test.op, ast.Not) and isinstance(
+                    node.test.operand, ast.Compare) and len(
+                    node.test.operand.ops) == 1:
+            c = node.test.operand
+            flip = {ast.Is: ast.IsNot, ast.IsNot: ast.Is}.get(type(c.ops[0]))
+            if flip is not None:
+                node.test = ast.Compare(left=c.left, ops=[flip()],
+                                        comparators=c.comparators)
+    return fn
+
+
+def faithful_records(rep: Report, ctx: Ctx, rule: str,
+                     modules: tuple[str, ...]) -> None:
+    """The objects the pipeline hands from phase to phase (events, loop
+    events, model nodes, diagram nodes, logic blocks) are plain records.
+    (a) every attribute that a method of the class reads through ``self`` is
+    assigned by the constructor chain on every path (or is a property,
+    method or class attribute); (b) a class with a base class initialises it;
+    (c) a constructor stores a parameter under its own name - not under the
+    name of another parameter - and a `None` default is replaced without
+    dropping a given value; (d) a property setter stores its argument in the
+    attribute the getter reads."""
+    n_cls = n_attr = n_par = n_prop = 0
+    by_node = {id(f.node): f for f in ctx.index.all_functions()}
+
+    def fi_of(ci, node):  # type: ignore[no-untyped-def]
+        if id(node) in by_node:
+            return by_node[id(node)]
+        for st in ci.node.body:
+            if isinstance(st, ast.FunctionDef) and id(st) in by_node:
+                return by_node[id(st)]
+        return None
+    for name in sorted(ctx.index.classes):
+        for ci in ctx.index.classes[name]:
+            if not any(m in ci.module.relpath for m in modules):
+                continue
+            init = _init_of(ci)
+            n_cls += 1
+            # ---- (a) + (b): definite assignment along the base chain
+            assigned: set[str] = set()
+            declared: set[str] = set()
+            chain_ok = True
+            external = False
+            cur, seen = ci, set()
+            why = ""
+            while cur is not None and id(cur) not in seen:
+                seen.add(id(cur))
+                for st in cur.node.body:
+                    if isinstance(st, (ast.FunctionDef,)):
+                        declared.add(st.name)
+                    elif isinstance(st, ast.Assign):
+                        declared |= {t.id for t in st.targets
+                                     if isinstance(t, ast.Name)}
+                    elif isinstance(st, ast.AnnAssign) and isinstance(
+                            st.target, ast.Name) and st.value is not None:
+                        declared.add(st.target.id)
+                ini = _init_of(cur)
+                ext_base = [b for b in cur.base_names if b.split(".")[-1]
+                            not in ("object", "Generic", "Protocol", "ABC",
+                                    "Enum") and not b.startswith("Generic[")]
+                external = external or bool(ext_base and not cur.bases)
+                if ini is not None:
+                    assigned |= _self_stores(ini, True)
+                    # helpers called unconditionally by the constructor
+                    meths = {m.name: m for m in cur.node.body
+                             if isinstance(m, ast.FunctionDef)}
+                    for st in ini.body:
+                        if isinstance(st, ast.Expr) and isinstance(
+                                st.value, ast.Call) and isinstance(
+                                st.value.func, ast.Attribute) and isinstance(
+                                st.value.func.value, ast.Name) and \
+                                st.value.func.value.id == "self" and \
+                                st.value.func.attr in meths:
+                            assigned |= _self_stores(
+                                meths[st.value.func.attr], True)
+                    if ext_base and not _calls_super_init(ini):
+                        chain_ok = False
+                        why = f"{cur.name}.__init__ does not initialise " \
+                              f"its base {ext_base[0]}"
+                        break
+                    if not cur.bases:
+                        break
+                    cur = cur.bases[0]
+                else:
+                    cur = cur.bases[0] if cur.bases else None
+            if init is not None or ci.bases:
+                rep.ob(rule, f"{ci.name}: the base class is initialised",
+                       chain_ok, fi=fi_of(ci, init or ci.node), node=init or ci.node,
+                       detail=why or "super().__init__ called along the "
+                       "whole chain")
+            reads: dict[str, ast.AST] = {}
+            for st in ci.node.body:
+                if not isinstance(st, ast.FunctionDef):
+                    continue
+                for x in ast.walk(st):
+                    if isinstance(x, ast.Attribute) and isinstance(
+                            x.value, ast.Name) and x.value.id == "self" \
+                            and isinstance(x.ctx, ast.Load):
+                        reads.setdefault(x.attr, x)
+            lazily = set()
+            for st in ci.node.body:
+                if isinstance(st, ast.FunctionDef) and st.name != "__init__":
+                    lazily |= _self_stores(st, False)
+            missing = sorted(a for a in reads if a not in assigned
+                             and a not in declared
+                             and not a.startswith("__"))
+            n_attr += len(reads)
+            if chain_ok and (init is not None) and not external:
+                rep.ob(rule, f"{ci.name}: every attribute its methods read "
+                       "is assigned by the constructor chain", not missing,
+                       fi=fi_of(ci, init), node=reads[missing[0]] if missing else init,
+                       detail=(f"read but never assigned on every path: "
+                               f"{missing}" if missing else
+                               f"{len(reads)} attributes read, all assigned"))
+            # ---- (c) parameters stored under their own name
+            if init is not None:
+                ps = [a.arg for a in init.args.args[1:]
+                      + init.args.kwonlyargs]
+                bad = []
+                for st in init.body:
+                    if not isinstance(st, (ast.Assign, ast.AnnAssign)):
+                        continue
+                    t = st.targets[0] if isinstance(st, ast.Assign) \
+                        else st.target
+                    v = st.value
+                    if not (isinstance(t, ast.Attribute) and isinstance(
+                            t.value, ast.Name) and t.value.id == "self") \
+                            or v is None:
+                        continue
+                    a = t.attr.lstrip("_")
+                    used = {x.id for x in ast.walk(v)
+                            if isinstance(x, ast.Name) and x.id in ps}
+                    n_par += 1
+                    if a in ps and used and a not in used:
+                        bad.append((st, f"self.{t.attr} is computed from "
+                                        f"{sorted(used)}, not from '{a}'"))
+                    if isinstance(v, ast.IfExp) and a in ps:
+                        tst = unparse(v.test).replace(" ", "")
+                        keep = None
+                        if tst == f"{a}isNone":
+                            keep = v.orelse
+                        elif tst in (f"{a}isnotNone", a):
+                            keep = v.body
+                        if keep is not None and not (isinstance(
+                                keep, ast.Name) and keep.id == a):
+                            bad.append((st, f"a given '{a}' is replaced by "
+                                            "the default"))
+                used_names = {x.id for x in ast.walk(init)
+                              if isinstance(x, ast.Name)
+                              and isinstance(x.ctx, ast.Load)}
+                for q in ps:
+                    if q not in used_names:
+                        bad.append((init, f"parameter '{q}' is dropped: the "
+                                          "constructor never uses it"))
+                rep.ob(rule, f"{ci.name}.__init__ stores every parameter "
+                       "under its own name and keeps a given value", not bad,
+                       fi=fi_of(ci, init), node=bad[0][0] if bad else init,
+                       detail=bad[0][1] if bad else f"{len(ps)} parameters")
+            # ---- (d) property pairs
+            getters = {st.name: st for st in ci.node.body
+                       if isinstance(st, ast.FunctionDef) and any(
+                           unparse(d) == "property" for d in st.decorator_list)}
+            for st in ci.node.body:
+                if not isinstance(st, ast.FunctionDef):
+                    continue
+                for d in st.decorator_list:
+                    if isinstance(d, ast.Attribute) and d.attr == "setter" \
+                            and st.name in getters:
+                        n_prop += 1
+                        g = getters[st.name]
+                        gread = {x.attr for x in ast.walk(g) if isinstance(
+                            x, ast.Attribute) and isinstance(
+                            x.value, ast.Name) and x.value.id == "self"}
+                        val = st.args.args[1].arg if len(
+                            st.args.args) > 1 else "?"
+                        stores = [(x.targets[0].attr, x.value) for x in
+                                  ast.walk(st) if isinstance(x, ast.Assign)
+                                  and isinstance(x.targets[0], ast.Attribute)
+                                  and isinstance(x.targets[0].value, ast.Name)
+                                  and x.targets[0].value.id == "self"]
+                        stores += [(x.value.value.attr if isinstance(
+                            x.value.value, ast.Attribute) else "?", None)
+                            for x in ast.walk(st) if isinstance(x, ast.Assign)
+                            and isinstance(x.targets[0], ast.Subscript)
+                            and False]
+                        ok = any(a in gread and v is not None and any(
+                            isinstance(y, ast.Name) and y.id == val
+                            for y in ast.walk(v)) for a, v in stores) or \
+                            not stores and any(
+                                isinstance(y, ast.Name) and y.id == val
+                                for b_ in st.body for y in ast.walk(b_)
+                                if isinstance(y, ast.Name) and isinstance(
+                                    y.ctx, ast.Load))
+                        # is-None guards: the getter never returns the
+                        # attribute on the path where it is None, the setter
+                        # never stores on a path where ANOTHER attribute it
+                        # checks is None
+                        def arms(fn, want):  # type: ignore[no-untyped-def]
+                            # yields (attr, is_none_arm_stmts, set_arm_stmts)
+                            for node in ast.walk(fn):
+                                if isinstance(node, ast.If) and isinstance(
+                                        node.test, ast.Compare) and len(
+                                        node.test.ops) == 1 and isinstance(
+                                        node.test.ops[0], (ast.Is, ast.IsNot)
+                                        ) and unparse(
+                                        node.test.comparators[0]) == "None" \
+                                        and unparse(node.test.left
+                                                    ).startswith("self."):
+                                    idx = fn.body.index(node) if node in \
+                                        fn.body else None
+                                    rest = fn.body[idx + 1:] if idx is not \
+                                        None else []
+                                    body = list(node.body)
+                                    orelse = list(node.orelse)
+                                    ends = body and isinstance(
+                                        body[-1], (ast.Raise, ast.Return))
+                                    if ends:
+                                        orelse = orelse + rest
+                                    is_none = isinstance(node.test.ops[0],
+                                                         ast.Is)
+                                    yield (unparse(node.test.left)[5:],
+                                           body if is_none else orelse,
+                                           orelse if is_none else body)
+                        gbad = ""
+                        for attr, none_arm, set_arm in arms(_norm_isnone(g), None):
+                            if any(isinstance(x, ast.Return) and x.value is
+                                   not None and unparse(x.value) ==
+                                   f"self.{attr}" for s_ in none_arm
+                                   for x in ast.walk(s_)):
+                                gbad = f"getter returns self.{attr} on the " \
+                                       "path where it is None"
+                            if any(isinstance(x, ast.Raise) for s_ in set_arm
+                                   for x in ast.walk(s_)):
+                                gbad = f"getter raises although self.{attr} " \
+                                       "is set"
+                        for attr, none_arm, set_arm in arms(_norm_isnone(st), None):
+                            stored_here = {a for a, _ in stores}
+                            if attr not in stored_here and any(
+                                    isinstance(x, ast.Assign) for s_ in
+                                    none_arm for x in ast.walk(s_)):
+                                gbad = f"setter stores although self.{attr} " \
+                                       "is None"
+                            if attr in stored_here and any(
+                                    isinstance(x, ast.Assign) for s_ in
+                                    set_arm for x in ast.walk(s_)) and any(
+                                    isinstance(x, ast.Raise) for s_ in
+                                    none_arm for x in ast.walk(s_)):
+                                gbad = f"write-once setter of self.{attr} " \
+                                       "stores only when it is already set"
+                        rep.ob(rule, f"{ci.name}.{st.name}: is-None guards "
+                               "of getter and setter point the right way",
+                               not gbad, fi=fi_of(ci, st), node=st,
+                               detail=gbad or "guards consistent")
+                        rep.ob(rule, f"{ci.name}.{st.name}: the setter "
+                               "stores its argument where the getter reads",
+                               ok, fi=fi_of(ci, st), node=st,
+                               detail=f"getter reads {sorted(gread)}, setter "
+                                      f"stores {[a for a, _ in stores]}")
+            setters = {st.name for st in ci.node.body if isinstance(
+                st, ast.FunctionDef) and any(isinstance(d, ast.Attribute)
+                                             and d.attr == "setter"
+                                             for d in st.decorator_list)}
+            for gname, g in getters.items():
+                if gname in setters:
+                    continue
+                g = _norm_isnone(g)
+                gbad = ""
+                for node in ast.walk(g):
+                    if isinstance(node, ast.If) and isinstance(
+                            node.test, ast.Compare) and len(
+                            node.test.ops) == 1 and isinstance(
+                            node.test.ops[0], (ast.Is, ast.IsNot)) and \
+                            unparse(node.test.comparators[0]) == "None" and \
+                            unparse(node.test.left).startswith("self.") and \
+                            node in g.body:
+                        attr = unparse(node.test.left)[5:]
+                        rest = g.body[g.body.index(node) + 1:]
+                        body, orelse = list(node.body), list(node.orelse)
+                        if body and isinstance(body[-1], (ast.Raise,
+                                                          ast.Return)):
+                            orelse = orelse + rest
+                        is_none = isinstance(node.test.ops[0], ast.Is)
+                        none_arm = body if is_none else orelse
+                        set_arm = orelse if is_none else body
+                        if any(isinstance(x, ast.Return) and x.value is not
+                               None and unparse(x.value) == f"self.{attr}"
+                               for s_ in none_arm for x in ast.walk(s_)):
+                            gbad = f"returns self.{attr} on the path where " \
+                                   "it is None"
+                        if any(isinstance(x, ast.Raise) for s_ in set_arm
+                               for x in ast.walk(s_)):
+                            gbad = f"raises although self.{attr} is set"
+                        n_prop += 1
+                        rep.ob(rule, f"{ci.name}.{gname}: the is-None guard "
+                               "of the getter points the right way", not gbad,
+                               fi=fi_of(ci, g), node=g,
+                               detail=gbad or "guard consistent")
+    rep.analysed[f"{rule}_records"] = {"classes": n_cls, "attributes": n_attr,
+                                       "stores": n_par, "properties": n_prop}
